@@ -191,13 +191,16 @@ class SymSeq:
     `arrays` is a pytree of z3 arrays mirroring the element shape (struct of arrays).
     """
 
-    def __init__(self, length, shape, arrays):
+    def __init__(self, length, shape, arrays, offset=0):
         self.length = length
         self.shape = shape
         self.arrays = arrays
+        self.offset = offset       # element i lives at arrays[offset + i] (cheap slicing / popleft)
 
     def get(self, i):
-        return self.shape.select(self.arrays, i)
+        if isinstance(self.offset, int) and self.offset == 0:
+            return self.shape.select(self.arrays, i)
+        return self.shape.select(self.arrays, i + self.offset)
 
     def __repr__(self):
         return f"SymSeq<len={self.length}>"
